@@ -266,3 +266,4 @@ Definition st_pc (s : mstate) := pc s.
 Definition st_dom (s : mstate) := dom s.
 Definition st_cfi (s : mstate) := cfi s.
 Definition st_mem (s : mstate) := mem s.
+Definition st_regs (s : mstate) := regs s.
